@@ -10,7 +10,12 @@ META = {
             "evalSource/takeFromSource/evalDest/evalSend/evalStmts (withdrawAll_keeps, withdrawAlways_keeps + fallback_only_unbounded, repay_keeps, emit_floor, "
             "source_keeps, dest_keeps, send_keeps, stmt_keeps), plus short_sources_reject (bounded sources that cannot cover a send => the run is "
             "insufficient_funds, nothing emitted). Spec is tied to compiler+VM by a seeded end-to-end differential; an independent floor oracle replays "
-            "every accepted posting list against the balances it ran on (all cases of a run share one process; a violation that the case alone does not "
+            "every accepted posting list, all postings in order with unbounded integers, against the balances it ran on, and holds each posting to the "
+            "overdraft granted by the SEND it belongs to (read off the output: a send moves its asset from its sources to its destinations, statements post "
+            "in order) — an unbounded or larger overdraft in another statement does not license it (stronger than no_overdraw's max over the script: an "
+            "oracle fact). The generator adds multi-statement shapes aimed at the tracked balances: debts crossing -2^63 under an unbounded overdraft followed "
+            "by a bounded send from the same account; one account holding two non-adjacent pieces of a funding that is partly repaid, followed by a send it "
+            "cannot afford (all cases of a run share one process; a violation that the case alone does not "
             "show is reported with the earlier case of the process that makes it show).",
     "note": "Trusted: Lean kernel; Spec as the reading of Numscript; harness pretty-printer (text<->AST); math/big as Int. The theorem is about Spec; its lift to "
             "the bytecode VM rests on the differential (until C08's compile_correct). An account named world reached through a variable is outside the "
@@ -38,9 +43,10 @@ def run(ctx):
     compare(ctx, "numscript:spec-vs-vm", inputs, impl, model, proj_impl=lambda i, o: strip(o))
     seen, nontrivial = set(), 0
     rp = Replays(ctx, inputs)   # a replay is the case alone when that shows the violation, else (earlier case of the process, case)
+    flst = collections.Counter()
     for inp in inputs:
         out = impl.get(inp["id"], {})
-        for cls, what in floor_violations(inp, out):
+        for cls, what in floor_violations(inp, out, flst):
             rp.violation({"property": "C01", "class": cls, "construct": cause(inp)}, what, inp, out,
                          lambda o, inp=inp, cls=cls: any(c == cls for c, _ in floor_violations(inp, o)))
         g, _ = grants(inp)
@@ -49,6 +55,8 @@ def run(ctx):
             nontrivial += 1
         seen.add(h)
     ctx.cov["replay_isolation"] = dict(rp.stats)
+    ctx.cov["floor_oracle"] = dict(flst)
+    ctx.cov["focused_shapes"] = focus_stats(inputs, impl)
     ctx.cov["shapes"] = dict(collections.Counter(i.get("shape") or "general" for i in inputs))
     ctx.cov["evaluations"] = len(inputs)
     ctx.cov["distinct_nontrivial"] = nontrivial
